@@ -24,7 +24,7 @@ AbsPathRef(path)          == URI("", "", TRUE, path)       \* "/a/b.json"
 IsAbsolute(u) == u.sch # ""
 HasNoPath(u)  == u.path = <<>> /\ ~u.abs /\ u.opq = ""
 
-Front(s) == IF s = <<>> THEN <<>> ELSE SubSeq(s, 1, Len(s) - 1)
+ButLast(s) == IF s = <<>> THEN <<>> ELSE SubSeq(s, 1, Len(s) - 1)
 
 \* RFC 3986 5.2.4 remove_dot_segments, on segment sequences.
 RECURSIVE RD(_, _)
@@ -35,7 +35,7 @@ RD(in, out) ==
        IN IF h = "."
             THEN IF t = <<>> THEN Append(out, "") ELSE RD(t, out)
           ELSE IF h = ".."
-            THEN IF t = <<>> THEN Append(Front(out), "") ELSE RD(t, Front(out))
+            THEN IF t = <<>> THEN Append(ButLast(out), "") ELSE RD(t, ButLast(out))
           ELSE RD(t, Append(out, h))
 
 RemoveDots(p) == RD(p, <<>>)
@@ -44,7 +44,7 @@ RemoveDots(p) == RD(p, <<>>)
 MergedPath(B, R) ==
   IF B.auth # "" /\ B.path = <<>> /\ ~B.abs
     THEN R.path
-    ELSE Front(B.path) \o R.path
+    ELSE ButLast(B.path) \o R.path
 MergedAbs(B, R) == IF B.auth # "" /\ B.path = <<>> /\ ~B.abs THEN TRUE ELSE B.abs
 
 \* RFC 3986 5.2.2 transform references (fragment handled by the caller).
